@@ -163,8 +163,10 @@ def make_image(w, h, mname):
     return arr
 
 
-def readback_case(d, w, h, mname, scheme, part, sub=None):
-    """sub = (ix, iy, sw, sh): tile only that sub-image, placed inside the (w, h) tiling."""
+def readback_case(d, w, h, mname, scheme, part, sub=None, stale=False):
+    """sub = (ix, iy, sw, sh): tile only that sub-image, placed inside the (w, h) tiling.
+    stale: the output directory already holds a complete earlier tiling of a fully defined image of the
+    same size, and the image tiled now is undefined over all of its share of tile (0, 0)."""
     from toasty.image import Image, ImageLoader
     from toasty.pyramid import PyramidIO
     from toasty.builder import Builder
@@ -172,16 +174,28 @@ def readback_case(d, w, h, mname, scheme, part, sub=None):
 
     dt, ch, fmt = MODES[mname]
     cfg = {"width": w, "height": h, "mode": mname, "scheme": scheme, "sub": sub}
+    if stale:
+        cfg["over_existing_tiling"] = True
     part.case(nontrivial=True)
 
     def bad(clause, detail):
-        part.violation("readback/%s/%s" % (clause, mname), "%r: %s" % (cfg, detail), cfg)
+        part.violation("readback/%s%s/%s" % (clause, "/over-existing-tiling" if stale else "", mname), "%r: %s" % (cfg, detail), cfg)
 
     arr = make_image(w, h, mname)
     out = os.path.join(d, "rb_%d_%d_%s_%s" % (w, h, mname.replace("/", "_"), scheme.replace("/", "")))
     pio = PyramidIO(out, scheme=scheme, default_format=fmt)
     try:
         with quiet():
+            if stale:
+                first = make_image(w, h, mname)
+                if dt[0] == "f":
+                    first = np.where(np.isfinite(first), first, 3.0).astype(first.dtype)
+                tile_study_image(Image.from_array(first[::-1].copy(), default_format=fmt), pio)
+                gx0, gy0 = rt.offsets(w, h)
+                if dt[0] == "f":
+                    arr[: max(0, 256 - gy0), : max(0, 256 - gx0)] = np.nan
+                else:
+                    arr[: max(0, 256 - gy0), : max(0, 256 - gx0)] = 0
             if sub is None:
                 img = Image.from_array(arr.copy(), default_format=fmt)
                 tiling = tile_study_image(img, pio)
@@ -285,7 +299,7 @@ def _readback(job):
     with scratch("c08") as d:
         for item in job:
             (w, h, m, scheme) = item[:4]
-            readback_case(d, w, h, m, scheme, part, sub=item[4] if len(item) > 4 else None)
+            readback_case(d, w, h, m, scheme, part, sub=item[4] if len(item) > 4 else None, stale=bool(len(item) > 5 and item[5]))
             import shutil
 
             for e in os.listdir(d):
@@ -338,6 +352,10 @@ def run(tier, seed):
     for (w, h), sb in subs:
         for m in (["F32/fits", "RGBA/png", "U8/npy"] if tier == "quick" else list(MODES)):
             rb.append((w, h, m, "L/Y/YX", sb))
+    # re-tiling over a complete earlier tiling, the new image undefined over a whole tile
+    for (w, h) in [(513, 300), (300, 513), (600, 520)] + ([(1025, 260), (257, 257)] if tier == "thorough" else []):
+        for m in ("F32/fits", "F32/npy", "RGBA/png", "F64/fits", "F16x3/npy"):
+            rb.append((w, h, m, "L/Y/YX" if (w + len(m)) % 2 else "LXY", None, True))
     rb = rng_order(rb, seed)
     n = max(1, len(rb) // 6)
     for i in range(0, len(rb), 6):
@@ -351,7 +369,7 @@ def replay(payload):
     part = Part()
     if "mode" in r:
         with scratch("c08r") as d:
-            readback_case(d, r["width"], r["height"], r["mode"], r["scheme"], part, sub=tuple(r["sub"]) if r.get("sub") else None)
+            readback_case(d, r["width"], r["height"], r["mode"], r["scheme"], part, sub=tuple(r["sub"]) if r.get("sub") else None, stale=bool(r.get("over_existing_tiling")))
     else:
         geometry_case(r["width"], r["height"], part, sub=tuple(r["sub"]) if r.get("sub") else None)
     for sig, (detail, _) in part.violations.items():
